@@ -224,8 +224,21 @@ def bounded(ctx):
                             "suit-parameter-image-digest": {"suit-digest-algorithm-id": names[pa], "suit-digest-bytes": {"envelope": ref}},
                             "suit-parameter-image-size": {"envelope": ref}}}])
                         parent["SUIT_Envelope_Tagged"]["suit-integrated-dependencies"] = {"#child": ref}
+                        # every level also carries its own payload by path: BOTH integrated maps in one envelope, in either order
+                        own = bytes([lvl + 1]) * (7 + lvl)
+                        opath = f"{d}/own_{lvl}.bin"
+                        open(opath, "wb").write(own)
+                        if pa == -44:
+                            parent["SUIT_Envelope_Tagged"]["suit-integrated-payloads"] = {f"#own{lvl}": opath}
+                        else:
+                            e0 = parent["SUIT_Envelope_Tagged"]
+                            parent["SUIT_Envelope_Tagged"] = {k: v for k, v in e0.items() if k != "suit-integrated-dependencies"}
+                            parent["SUIT_Envelope_Tagged"]["suit-integrated-payloads"] = {f"#own{lvl}": opath}
+                            parent["SUIT_Envelope_Tagged"]["suit-integrated-dependencies"] = e0["suit-integrated-dependencies"]
                         env = _create(parent, d)
                         t, m, ps = params_of(env)
+                        if t.value.get(f"#own{lvl}") != own:
+                            B.fail("payload-by-path-is-the-file-content", dict(case, level=lvl), "own payload of a level that also has an integrated dependency is missing or differs from the file")
                         cm = cborx.decode_all(child_bytes, strict=True).value.get(3)
                         want = N.HASH(*R.HASHES[pa], cborx.encode(cm))
                         got_d = cborx.decode_all(ps[0].get(3), strict=True)
